@@ -402,7 +402,12 @@ class Folder(object):
                 kw = {k.arg: self._e(k.value, env, at) for k in e.keywords if k.arg}
                 if any(k.arg is None for k in e.keywords) or any(isinstance(a, ast.Starred) for a in e.args):
                     return U
-                return self._apply_fn(t, args, kw)
+                try:
+                    return self._apply_fn(t, args, kw)
+                except _Raise as r:
+                    if r.name in ("IndexError", "KeyError"):
+                        raise  # a simulated exception an enclosing interpreted try/except may handle
+                    return U  # the helper uses constructs the evaluator does not interpret
         # namedtuple class bound at module level
         if isinstance(f, ast.Name):
             fv = self._e(f, env, at)
